@@ -225,7 +225,12 @@ pub struct BuildOut {
 }
 
 pub fn run_build(s: &Scenario, mode: SchedMode, queued: bool, ch: &Ch, hook: bool) -> BuildOut {
+  run_build_susp(s, mode, queued, ch, hook, false)
+}
+
+pub fn run_build_susp(s: &Scenario, mode: SchedMode, queued: bool, ch: &Ch, hook: bool, suspensions: bool) -> BuildOut {
   let sched = Sched::new(mode);
+  sched.allow_suspensions.set(suspensions);
   let loader = ScriptedLoader::new(sched.clone());
   (s.install)(&loader);
   if s.cached_only_empty {
@@ -280,6 +285,10 @@ pub fn run_build(s: &Scenario, mode: SchedMode, queued: bool, ch: &Ch, hook: boo
 }
 
 fn body(ids: Vec<usize>, allow_queued: bool) -> impl Fn(&Ch) -> Run + Sync + Send {
+  body_susp(ids, allow_queued, false)
+}
+
+fn body_susp(ids: Vec<usize>, allow_queued: bool, suspensions: bool) -> impl Fn(&Ch) -> Run + Sync + Send {
   move |ch: &Ch| {
     let mut run = Run::default();
     let idx = ids[ch.shape("scenario", ids.len())];
@@ -288,7 +297,7 @@ fn body(ids: Vec<usize>, allow_queued: bool) -> impl Fn(&Ch) -> Run + Sync + Sen
     // the schedule every pinned test uses: everything ready immediately
     let reference = run_build(&s, SchedMode::Immediate, false, ch, false);
     // the explored schedule: gated completions, chosen drain orders
-    let got = run_build(&s, SchedMode::Gated, queued, ch, true);
+    let got = run_build_susp(&s, SchedMode::Gated, queued, ch, true, suspensions);
     run.evals = 1;
     let case = |extra: Value| {
       json!({"scenario": s.name, "world": s.describe, "queued_executor": queued,
@@ -412,6 +421,12 @@ pub fn prop(tier: Tier) -> Prop {
       what: "registry package with embedded module info: deferred content loads (FuturesUnordered), deviation-bounded schedules",
     },
     Part {
+      name: "suspensions",
+      body: Box::new(body_susp(vec![0, 2, 4, 5, 9, 10], false, true)),
+      modes: vec![Mode::Deviations(1), Mode::Deviations(2)],
+      what: "a released future may suspend 1 or 2 more times (self-wake) before it reports Ready; completion order as a deviation too",
+    },
+    Part {
       name: "generated-worlds",
       body: Box::new(body_worlds(crate::world::Space::core(3, 3, crate::world::CORE_KINDS_QUICK))),
       modes: vec![Mode::Full],
@@ -437,6 +452,12 @@ pub fn prop(tier: Tier) -> Prop {
         what: "registry package with embedded module info: deferred content loads, both executors",
       },
       Part {
+        name: "suspensions",
+        body: Box::new(body_susp(vec![0, 1, 2, 3, 4, 5, 6, 8, 9, 10, 11], false, true)),
+        modes: vec![Mode::Deviations(2), Mode::Deviations(3), Mode::Deviations(4)],
+        what: "a released future may suspend 1 or 2 more times before it reports Ready; completion order as a deviation too",
+      },
+      Part {
         name: "generated-worlds",
         body: Box::new(body_worlds(crate::world::Space::core(3, 3, crate::world::CORE_KINDS))),
         modes: vec![Mode::Full],
@@ -449,7 +470,7 @@ pub fn prop(tier: Tier) -> Prop {
     rule: "state = (collision world, executor, schedule); a schedule is the order in which the driver completes outstanding gated Loader futures / polls queued tasks plus the permutation in which each hash-map drain (dynamic branches, deferred loads) hands out its entries (feature-guarded hook). Every complete run's graph observation (slots incl. error text and referrers, redirects, packages), final lockfile content and multiset of lockfile writes must equal the run in which every future is ready immediately. distinct_outcomes counts distinct event orders; non-trivial = schedule with >= 3 completion events.".into(),
     assumptions: vec![
       "12 hand-built collision worlds (see samples) plus every generated world of the core alphabet; worlds with more than ~8 simultaneously outstanding operations are not included".into(),
-      "extra suspensions of an already-released future are not injected (a released future is ready at its next poll)".into(),
+      "extra suspensions of an already-released future (0-2, self-waking) are explored deviation-bounded in their own part".into(),
       "hash-map iteration order is explored through the verif_hooks drain-order hook; order-preserving containers are left alone by the hook".into(),
     ],
     parts,
